@@ -771,3 +771,46 @@ func (a *Adapter) Project(ctx sdk.Context) any {
 	}
 	return map[string]any{"stored": stored, "bridgerOf": bridgerOf, "extOf": extOf, "confirms": confirms, "valid": valid, "stray": stray}
 }
+
+// ---------------------------------------------------------------- real-state oracle after every edge
+
+func (a *Adapter) moduleDump(ctx sdk.Context) map[string]string {
+	out := map[string]string{}
+	it := ctx.KVStore(a.storeKey).Iterator(nil, nil)
+	for ; it.Valid(); it.Next() {
+		out[string(it.Key())] = string(it.Value())
+	}
+	it.Close()
+	return out
+}
+
+// AfterEdge: a rejected Confirm leaves the module's complete store byte-identical; an accepted Confirm adds
+// exactly one entry, under one of the three confirmation prefixes, and changes or deletes nothing.
+func (a *Adapter) AfterEdge(post, pre sdk.Context, op graph.Op, res string) error {
+	if op.Name() != "Confirm" {
+		return nil
+	}
+	before, after := a.moduleDump(pre), a.moduleDump(post)
+	added := 0
+	for k, v := range after {
+		old, had := before[k]
+		switch {
+		case !had:
+			added++
+			if res != "ok" || !(k[0] == 0x16 || k[0] == 0x22 || k[0] == 0x45) {
+				return fmt.Errorf("%s Confirm wrote key %x", res, k)
+			}
+		case old != v:
+			return fmt.Errorf("%s Confirm changed the value of key %x", res, k)
+		}
+	}
+	for k := range before {
+		if _, ok := after[k]; !ok {
+			return fmt.Errorf("%s Confirm deleted key %x", res, k)
+		}
+	}
+	if res == "ok" && added != 1 {
+		return fmt.Errorf("accepted Confirm added %d entries", added)
+	}
+	return nil
+}
